@@ -98,6 +98,13 @@ func (r *Runner) Step(b Block) BlockOut {
 	for i, t := range out.Txs {
 		r.emit(fmt.Sprintf("TXR %d %s", i, t.Class()))
 	}
+	for i, g := range out.Gov {
+		res := "govfail"
+		if g.OK {
+			res = "ok"
+		}
+		r.emit(fmt.Sprintf("TXR %d %s", len(out.Txs)+i, res))
+	}
 	if out.RawResp != nil {
 		// the consensus-relevant part of the response: app hash, validator updates, consensus param
 		// updates and, per tx, what CometBFT hashes into LastResultsHash (code, data, gas) plus the
@@ -306,6 +313,15 @@ func genHistory(w *World, seed uint64, cfg GenCfg, ops io.Writer, obs io.Writer)
 	return blocks, r.Halt
 }
 
+func hasKindTxs(txs []Tx, k string) bool {
+	for _, t := range txs {
+		if hasKind(t.Msgs, k) {
+			return true
+		}
+	}
+	return false
+}
+
 func hasKind(ms []Msg, k string) bool {
 	for _, m := range ms {
 		if m.Kind == k || hasKind(m.Sub, k) {
@@ -422,8 +438,31 @@ func main() {
 					abs[k] = true
 				}
 				b.Votes = r.VotesFor(r.N.Height+1, abs)
+				// governance: every proposal a script submits (GOVSUB) is voted on at once by the operators of the genesis
+				// validators (unless the script carries its own VOTE lines); which proposals x/gov executes in a block is read
+				// off the run and written into the completed ops file (GOV sections)
+				if !hasKindTxs(b.Txs, "VOTE") {
+					next := r.N.NextProposalID()
+					var withVotes []Tx
+					for _, tx := range b.Txs {
+						withVotes = append(withVotes, tx)
+						for _, m := range tx.Msgs {
+							if m.Kind == "GOVSUB" {
+								for _, gv := range h.G.Vals {
+									withVotes = append(withVotes, Tx{Signer: gv.Op, Msgs: []Msg{{Kind: "VOTE", Args: []string{fmt.Sprint(next)}}}})
+								}
+								next++
+							}
+						}
+					}
+					b.Txs = withVotes
+				}
+				b.Gov = nil
+				out := r.Step(b)
+				for _, g := range out.Gov {
+					b.Gov = append(b.Gov, g.Msgs)
+				}
 				WriteBlock(ow, b)
-				r.Step(b)
 			}
 			fmt.Fprintln(ow, "END")
 			fmt.Fprintln(bw, "END")
